@@ -75,6 +75,11 @@ def day_frac(val1, val2, factor=None, divisor=None):
     day += excess
     extra, frac = two_sum(sum12, -day)
     frac += extra + err12
+    # The last rounding can still leave the fraction one ulp beyond +-0.5
+    # (e.g. for (-3.5 - 4e-16) / 7); fold it back, which is exact.
+    excess = np.where(frac > 0.5, 1.0, np.where(frac < -0.5, -1.0, 0.0))
+    day += excess
+    frac -= excess
     return day, frac
 
 
